@@ -11,7 +11,7 @@ CONSTANTS
     NSet2,      \* numbers of raw requests of the other requests
     WantSet,    \* subset of {"me", "other", "absent"}: request selects this validator / another / does not exist
     FReqSet, FHashSet, FDataSet,   \* failure budgets (0, 1..MaxTry-1, Always)
-    LenSet, CachedSet,             \* executable lengths, initial cache content
+    LenSet, CachedSet, DmgSet,             \* executable lengths, initial cache content
     KindSet,    \* subset of {"ok", "nonZero", "error", "slow"}
     Modes,      \* subset of {"direct", "tx"}
     DeliverAnyTime  \* FALSE: reports are handed to the chain only when the daemon has finished (smaller state space)
@@ -30,12 +30,13 @@ Outcome(kind, k) ==
 Choices ==
     [want : [Req -> WantSet], n : [Req -> NAll], dsOf : [Req -> [1..MaxN -> DS]], kind : [Req -> [1..MaxN -> KindSet]],
      fReq : [Req -> FReqSet], fHash : [DS -> FHashSet], fData : [DS -> FDataSet],
-     len : [DS -> LenSet], cached : [DS -> CachedSet]]
+     len : [DS -> LenSet], cached : [DS -> CachedSet], dmg : [DS -> DmgSet]]
 
 \* choices that differ only in unused positions give the same scenario; canonical form: unused positions
 \* carry the least element
 MinN(r) == CHOOSE n \in NSetOf(r) : \A m \in NSetOf(r) : n <= m
 Canon(x) ==
+    /\ \A d \in DS : x.dmg[d] => ~x.cached[d]
     /\ \A r \in Req : x.n[r] \in NSetOf(r)
     /\ \A r \in Req : x.want[r] # "me" => x.n[r] = MinN(r)      \* the raw requests of such a request are never looked at
     /\ \A r \in Req : \A k \in 1..MaxN : (k > x.n[r] \/ x.want[r] # "me") =>
@@ -49,7 +50,7 @@ Mk(x) ==
                                ELSE [k \in 1..x.n[r] |-> [eid |-> k - 1, ds |-> x.dsOf[r][k]]]],
      exec   |-> [r \in Req |-> IF x.want[r] = "absent" THEN <<>>
                                ELSE [k \in 1..x.n[r] |-> Outcome(x.kind[r][k], k)]],
-     fReq   |-> x.fReq, fHash |-> x.fHash, fData |-> x.fData, len |-> x.len, cached |-> x.cached]
+     fReq   |-> x.fReq, fHash |-> x.fHash, fData |-> x.fData, len |-> x.len, cached |-> x.cached, dmg |-> x.dmg]
 
 MCInit ==
     /\ \E x \in Choices : Canon(x) /\ sc = Mk(x)
